@@ -113,14 +113,50 @@ theorem copy_original_untouched (F : HashFns H) (fuel : Nat) (h h' : Heap H) (n 
   exact ⟨a, c', b⟩
 
 /-- `transform(fun, copy=True)` — the default — leaves the argument untouched: every cell that existed before the call
-    is unchanged (structure, pointers and caches), and the invariant holds afterwards; for any user function that works
-    inside the copy (`TransformFr`) and hands back admissible values (`TransformAdm`). -/
+    is unchanged (structure, pointers and caches), the invariant holds afterwards, and the RESULT SHARES NO NODE WITH THE
+    ARGUMENT; for any user function that works inside the copy (`TransformFr`) and hands back admissible values
+    (`TransformAdm`). -/
 theorem transform_copy_pure (F : HashFns H) (fuel : Nat) (fn : UserFun H) (h h' : Heap H) (base nx' : Nat) (root : Id)
     (r : Value) (hI : Inv F h) (hf : FreshFrom h base) (hn : base > root)
     (hfn : ∀ h1 nx1 c, opDeepcopy fuel h root base = some (h1, nx1, c) →
       TransformFr (fun m => base ≤ m) fuel fn h1 nx1 c ∧ TransformAdm F fuel fn h1 nx1 c)
     (he : opTransformCopy fuel fn h base root = some (h', nx', r)) :
-    (∀ m, m < base → h' m = h m) ∧ Inv F h' := opTransformCopy_pure F hI hf hn hfn he
+    (∀ m, m < base → h' m = h m) ∧ Inv F h' ∧
+    (∀ c m, Item.node c ∈ itemOfValue r → Reach h' c m → ¬ Reach h' root m) := opTransformCopy_pure F hI hf hn hfn he
+
+/-- `exp.expand(tree, sources, copy=True)` IS `tree.transform(_expand, copy=True)` (pinned by `expand_returns_through_the_copy`),
+    with `_expand` replacing a Table that names a source by a fresh subquery. For EVERY source map (any admissible user
+    function) the result shares no node with the argument and the argument is untouched. -/
+theorem expand_result_disjoint (F : HashFns H) (fuel : Nat) (expandFn : UserFun H) (h h' : Heap H) (base nx' : Nat)
+    (root : Id) (r : Value) (hI : Inv F h) (hf : FreshFrom h base) (hn : base > root)
+    (hfn : ∀ h1 nx1 c, opDeepcopy fuel h root base = some (h1, nx1, c) →
+      TransformFr (fun m => base ≤ m) fuel expandFn h1 nx1 c ∧ TransformAdm F fuel expandFn h1 nx1 c)
+    (he : opTransformCopy fuel expandFn h base root = some (h', nx', r)) :
+    (∀ m, m < base → h' m = h m) ∧ (∀ c m, Item.node c ∈ itemOfValue r → Reach h' c m → ¬ Reach h' root m) :=
+  let x := opTransformCopy_pure F hI hf hn hfn he
+  ⟨x.1, x.2.2⟩
+
+/-- the "nothing to expand" case (empty sources, or no Table names a source: `_expand` returns every node unchanged):
+    the result is still the fresh copy — a different root, no shared node, the argument untouched. A fast path that
+    returns the input is therefore a refutation of the modelled code, not an optimisation of it. -/
+theorem expand_nothing_to_do_still_copies (F : HashFns H) (fuel : Nat) (h h' : Heap H) (base nx' : Nat) (root : Id)
+    (r : Value) (hI : Inv F h) (hf : FreshFrom h base) (hn : base > root)
+    (he : opTransformCopy fuel (idFun (H := H)) h base root = some (h', nx', r)) :
+    r = .node base ∧ r ≠ .node root ∧ (∀ m, m < base → h' m = h m) ∧ (∀ m, Reach h' base m → ¬ Reach h' root m) := by
+  obtain ⟨a, b, c⟩ := opTransformCopy_id F hI hf hn he
+  refine ⟨a, ?_, b, c⟩
+  rw [a]
+  intro e
+  simp only [Value.node.injEq] at e
+  rw [e] at hn
+  exact Nat.lt_irrefl _ hn
+
+/-- every `return` of `exp.expand` (its own body, not the nested `_expand`) goes through the copying transform, and
+    `lineage` hands `maybe_parse` the caller's `copy` flag unconditionally — re-extracted (ast) on every run. A new
+    return path (a fast path returning the input) or a conditional copy breaks this build. -/
+theorem expand_returns_through_the_copy :
+    SqlglotModel.Generated.C09.expandReturnSites = ["return expression.transform(_expand, copy=copy)"] ∧
+    SqlglotModel.Generated.C09.lineageCopiesInput = true := by decide +kernel
 
 /-- the copy defaults the property rests on, re-extracted (ast) from the source on every run: `Generator.generate`
     copies its argument by default before preprocessing/printing, `Expression.sql(copy=True)`, `transform` copies when
@@ -147,6 +183,11 @@ theorem copy_false_sites_allowed :
        "sqlglot/expressions/builders.py:table_name:sql:False",
        "sqlglot/expressions/core.py:sql:generate:copy",
        "sqlglot/generators/athena.py:generate:generate:copy"] := by decide +kernel
+
+/-- non-vacuity of `expand_nothing_to_do_still_copies`: the identity run exists in the model and returns the copy's root -/
+example : ((run freeHash 8 empty [.new 0 "paren" false, .new 1 "literal" true, .set 1 "this" (.leaf (.str "1")) none true,
+      .set 0 "this" (.node 1) none true]).bind (fun h => opTransformCopy 8 idFun h 2 0)).map (fun r => (r.2.1, r.2.2)) =
+    some (4, Value.node 2) := by decide +kernel
 
 /-! ### non-vacuity -/
 
